@@ -134,12 +134,13 @@ template<int D> void observe(view_t<D> const& v, std::ostream& os) {
 }
 
 template<int D> void run_program(long id, view_program const& p) {
-	multi::array<T, D> root(make_ext<D>(p.sizes, p.firsts, std::make_index_sequence<D>{}));
+	multi::array<T, D, verif_alloc<T>> root(make_ext<D>(p.sizes, p.firsts, std::make_index_sequence<D>{}));
 	{
 		T k = 0;
 		for(auto& e : root.elements()) { e = k++; }
 	}
-	g_root = root.data_elements();
+	{ using vptr::raw; g_root = raw(root.data_elements()); }
+	vptr::events().reset();
 	g_root_n = static_cast<long>(root.num_elements());
 	any_view cur;
 	put<D>(cur, norm(root()));
@@ -163,6 +164,10 @@ template<int D> void run_program(long id, view_program const& p) {
 		});
 		if(!fin) { os << ",\"obs_abort\":" << guard::last_json(); }
 	}
+#if VERIF_PTR_KIND == 2
+	os << ",\"ptr_events\":" << vptr::events().total();
+	if(vptr::events().total() != 0) { os << ",\"ptr_first\":\"" << vptr::events().first << "\""; }
+#endif
 	os << "}\n";
 	std::cout << os.str() << std::flush;
 }
